@@ -532,7 +532,7 @@ class VArr:
         if order not in ("C", "F", "K", "A"):
             raise Unsupported("flatten order")
         if order in ("K", "A"):
-            cur().oblige(f"layout-independence({what}(order={order!r}) orders the elements by the memory layout of its argument)", z3.BoolVal(False), structural=True)
+            cur().oblige(f"layout-independence({what}(order={order!r}) orders the elements by the memory layout of its argument)", z3.BoolVal(False))
         cur().event("arr-copy", self.buf)
         return VArr(self.term, self.dtype_name, self.space)
 
